@@ -64,13 +64,15 @@ def main():
     only = args[args.index("--only") + 1].split(",") if "--only" in args else None
     extra = args[args.index("--props-extra") + 1].split(",") if "--props-extra" in args else []
     names = sorted(n for n in os.listdir(SEEDED) if os.path.isdir(f"{SEEDED}/{n}") and (only is None or n in only))
+    obsolete = [n for n in names if json.load(open(f"{SEEDED}/{n}/meta.json")).get("obsolete")]
+    names = [n for n in names if n not in obsolete]
     with ThreadPoolExecutor(jobs) as ex:
         res = list(ex.map(lambda n: job(n, seed, extra), names))
     head = subprocess.run("git -C /repo rev-parse --short HEAD", shell=True, capture_output=True, text=True).stdout.strip()
-    summary = {"repo_head": head, "seed": seed, "n": len(res), "caught_by_own_check": sum(1 for r in res if r["property"] in r.get("detected_by", [])), "not_caught": [r["name"] for r in res if r["property"] not in r.get("detected_by", [])], "results": res}
+    summary = {"repo_head": head, "seed": seed, "n": len(res), "caught_by_own_check": sum(1 for r in res if r["property"] in r.get("detected_by", [])), "not_caught": [r["name"] for r in res if r["property"] not in r.get("detected_by", [])], "obsolete": obsolete, "errors": [r["name"] for r in res if r.get("error")], "results": res}
     if only is None:
         json.dump(summary, open(f"{SEEDED}/MATRIX.json", "w"), indent=1)
-    print(json.dumps({k: summary[k] for k in ("repo_head", "seed", "n", "caught_by_own_check", "not_caught")}))
+    print(json.dumps({k: summary[k] for k in ("repo_head", "seed", "n", "caught_by_own_check", "not_caught", "obsolete", "errors")}))
     shutil.rmtree(SCR, ignore_errors=True)
 
 
